@@ -129,6 +129,19 @@ CLAIMED["C11"] = dict(
               "matrices and encodings + direct numeric oracle on the implementation",
     design="8 C11")
 
+CLAIMED["C12"] = dict(
+    text="Exact-rational Gallina models of basis_spline (Cox-de Boor with the code's boundary handling, padding, quantile knots, five extrapolation "
+         "modes) and of the cubic regression splines (knot search, base functions, cyclic mapping, the tridiagonal/cyclic systems solved exactly). "
+         "Theorems for every sorted padded knot vector, degree and x: non-negative, sums to one inside the bounds, zero outside, 'extend' unchanged "
+         "inside and equal to the first/last polynomial piece outside, df columns; for every strictly increasing knot list: the cubic basis is "
+         "cardinal (unit vector at each knot, cyclic wrap), each piece is the cubic with the given end values and second derivatives (Taylor "
+         "identity), C1 at a knot iff the tridiagonal equation holds (F checked exactly per case), centering gives zero column means. "
+         "Model = implementation on recorded knots, F and every cell; scipy BSpline / CubicSpline used as an independent reference on the implementation.",
+    note="Coq kernel + vm_compute; numpy quantiles and LAPACK solves observed (model recomputes them exactly and compares within 2^-24); uniqueness of the "
+         "interpolating spline not proved (scipy reference compared numerically)",
+    technique="Coq proof over Q (lra/field; induction on the degree; telescoping sums) + result-checking of the linear solve + in-Coq correspondence",
+    design="8 C12")
+
 CLAIMED["C13"] = dict(
     text="Exact-rational Gallina models of scale()/center() (state-first statistics, numpy.sqrt symbolic) and of poly()'s three-term recurrence with "
          "recorded alpha/norms2; real-number denotation of the regenerated TRANSFORMS table. Theorems: centring gives mean zero, scaling mean zero and "
